@@ -949,3 +949,20 @@ def inline_locals(fn_node, expr, depth=3):
                 return R(self.d - 1).visit(_copy.deepcopy(defs[n.id]))
             return n
     return R(depth).visit(_copy.deepcopy(expr))
+
+
+def fresh_request_buffer(ctx):
+    """DataStream._update_t: every request binds self.v to a fresh zero array.  MultiAntennaArray keeps VIEWS of the background
+    stream's buffer (the trailing delay samples) for the next request, and get_samples hands the buffer out: re-using it in place
+    would overwrite the samples a later request still needs (shared by C02-D7 and C15-D2)."""
+    ut = ctx.func('voltage.data_stream.DataStream._update_t')
+    ru, Iu = ctx.run(ut, expand=False)
+    vst = [e for e in Iu.events if e.kind == 'store' and e.data.get('target') == 'attr' and e.data.get('name') == 'v']
+    okv = len(vst) == 1 and not vst[0].pc and vst[0].data['value'].key == ctx.spec(ut, 'xp.zeros(num_samples)').key
+    inplace = [e for e in Iu.events if (e.kind == 'call' and e.data.get('name') in ('.fill', '.put', 'copyto', 'numpy.copyto'))
+               or (e.kind == 'store' and e.data.get('target') == 'sub' and '.v' in ast.unparse(e.data['base_node']))]
+    ctx.ob('ALIASINPLACE', 'every request allocates a fresh voltage buffer (the per-antenna caches keep views of the previous one, '
+           'so it must never be reused in place)', ut, okv and not inplace,
+           {'stores': [e.text() for e in vst], 'path_conditions': [[pretty(c) for c in e.pc] for e in vst],
+            'in_place': [e.text() for e in inplace]},
+           node=(vst[0].node if vst else ut.node), construct='self.v per request')
